@@ -174,7 +174,7 @@ def eligible_for_model(s):
     odd = {"E", "PE"}
     if any(l["type"] in odd for l in s["target"]["in"] + s["inputs"]):
         return False
-    return not s.get("gens")
+    return True
 
 
 def canon(kind, log, inputs, valtok):
@@ -205,9 +205,14 @@ def real_observations(trace_path):
     for l in open(trace_path):
         e = json.loads(l)
         if e["ev"] == "reset":
-            cur = {"sid": e["sid"], "log": []}
+            cur = {"sid": e["sid"], "log": [], "nconvs": len(e["scn"]["convs"])}
+        elif e["ev"] == "reset":
+            pass
         elif e["ev"] == "exec" and e["phase"] == 1:
-            cur["log"].append([e["fn"], e["args"], e["outs"]])
+            fn = e["fn"]
+            if fn > cur["nconvs"]:  # a generated converter: named by its labels, as in the model
+                fn = ["g", e["fin"][0]["name"], e["fin"][0]["type"], e["fin"][0]["sub"], e["fout"][0]["type"]]
+            cur["log"].append([fn, e["args"], e["outs"]])
         elif e["ev"] == "redef":
             kind = "redef" if e["ok"] else ("unsat" if e["detail"].startswith("unsat") else "redeferr")
             real.setdefault(cur["sid"], set()).add(canon(kind, [], e["inputs"], 0))
